@@ -41,15 +41,13 @@ def project_frame(df, axis_names, data_names):
     return cols
 
 
-def run_save(table, config, opts, rollup):
+def run_session(table, config, ops):
+    """one PandasStore object driven through ops: ("save", opts) / ("agg",); -> one event per op"""
     import pipe_exec
-    import ioos_qc.qartod as qartod
     from ioos_qc.config import Config
     from ioos_qc.stores import PandasStore
     from ioos_qc.streams import PandasStream
     pipe_exec.install()
-    e = {"ev": "save", "table": table, "config": config, "opts": opts, "frame": [], "exc": "",
-         "rollup": {"asked": rollup, "found": False, "vals": []}}
     names = {"qartod": chars("qartod"), "axds": chars("axds"), "argo": chars("argo")}
     for sid in table["data"]:
         names[sid] = chars(sid)
@@ -57,7 +55,6 @@ def run_save(table, config, opts, rollup):
         for en in c["entries"]:
             names[en["fn"]] = chars(TESTNAME[en["fn"]])
             names.setdefault(en["stream"], chars(en["stream"]))
-    e["names"] = names
 
     def conc(lst):
         if not lst["given"]:
@@ -72,37 +69,73 @@ def run_save(table, config, opts, rollup):
                 import importlib
                 out.append(getattr(importlib.import_module("ioos_qc." + MODOF.get(it["v"], "qartod")), TESTNAME[it["v"]]))
         return out
+    saves = [op[1] for op in ops if op[0] == "save"]
+    ax = saves[0]["axes"]          # the axis names belong to the store object: the same for every save of a session
+    store, boot = None, ""
     try:
         stream = PandasStream(pipe_exec.frame(table))
         results = list(stream.run(Config(pipe_exec.config_dict(config, "iso"))))
-        ax = opts["axes"]
         axes_arg = None
         if "".join(ax["t"]) != "time" or "".join(ax["z"]) != "z":
             axes_arg = {"t": "".join(ax["t"]), "z": "".join(ax["z"]), "y": "".join(ax["y"]), "x": "".join(ax["x"])}
         store = PandasStore(results, axes_arg) if axes_arg else PandasStore(results)
-        if rollup:
-            store.compute_aggregate(name="rollup")
-        df = store.save(write_data=opts["write_data"], write_axes=opts["write_axes"],
-                        include=conc(opts["include"]), exclude=conc(opts["exclude"]))
-        cols = project_frame(df, {"".join(ax[k]) for k in ("t", "z", "y", "x")}, set(table["data"]) if opts["write_data"] else set())
-        e["nrows"] = len(df)
-        if rollup:
-            rc = [c for c in cols if "".join(c["name"]).endswith("rollup")]
-            if rc:
-                e["rollup"]["found"] = True
-                e["rollup"]["vals"] = rc[0]["vals"]
-            cols = [c for c in cols if not "".join(c["name"]).endswith("rollup")]
-        e["frame"] = cols
     except Exception as ex:  # noqa: BLE001
-        e["exc"] = type(ex).__name__
-        e["msg"] = str(ex)[:150]
-    return e
+        boot = type(ex).__name__
+    events, hist, aggd = [], [], False
+    for k, op in enumerate(ops):
+        if op[0] == "agg":
+            e = {"ev": "agg", "exc": boot, "first": k == 0, "table": table, "config": config, "hist": list(hist)}
+            if not boot:
+                try:
+                    store.compute_aggregate(name="rollup")
+                    aggd = True
+                except Exception as ex:  # noqa: BLE001
+                    e["exc"] = type(ex).__name__
+            hist.append(["agg"])
+            events.append(e)
+            continue
+        opts = op[1]
+        e = {"ev": "save", "table": table, "config": config, "opts": opts, "frame": [], "exc": boot, "names": names,
+             "rollup": {"asked": aggd, "found": False, "vals": []}, "first": k == 0, "hist": list(hist)}
+        hist.append(["save", opts])
+        if not boot:
+            try:
+                df = store.save(write_data=opts["write_data"], write_axes=opts["write_axes"],
+                                include=conc(opts["include"]), exclude=conc(opts["exclude"]))
+                cols = project_frame(df, {"".join(ax[k2]) for k2 in ("t", "z", "y", "x")},
+                                     set(table["data"]) if opts["write_data"] else set())
+                e["nrows"] = len(df)
+                rc = [c for c in cols if "".join(c["name"]).endswith("rollup")]
+                if rc:
+                    e["rollup"]["found"] = True
+                    e["rollup"]["vals"] = rc[0]["vals"]
+                e["frame"] = [c for c in cols if not "".join(c["name"]).endswith("rollup")]
+            except Exception as ex:  # noqa: BLE001
+                e["exc"] = type(ex).__name__
+                e["msg"] = str(ex)[:150]
+        events.append(e)
+    return events
+
+
+def run_save(table, config, opts, rollup):
+    """a fresh store, optionally compute_aggregate, one save -> the save event"""
+    return run_session(table, config, ([("agg",)] if rollup else []) + [("save", opts)])[-1]
+
+
+def replay_event(e):
+    """re-run the store session up to and including the recorded event -> its events"""
+    ops = [tuple(h) for h in e.get("hist", [])] + ([("agg",)] if e["ev"] == "agg" else [("save", e["opts"])])
+    if not any(op[0] == "save" for op in ops):
+        ops.append(("save", {"write_data": False, "write_axes": True, "include": {"given": False, "items": []},
+                             "exclude": {"given": False, "items": []},
+                             "axes": {"t": chars("time"), "z": chars("z"), "y": chars("lat"), "x": chars("lon")}}))
+    return run_session(e["table"], e["config"], ops)
 
 
 def check(ctx):
     import qcexec  # noqa: F401
     from ioos_qc.utils import cf_safe_name
-    core.mc(ctx, "store", "MC_Store", {}, invariants=["InvStoreSat", "InvNames", "InvCollision"], init="MCSInit", nxt="MCSNext")
+    core.mc(ctx, "store", "MC_Store", {}, invariants=["InvStoreSat", "InvNames", "InvCollision", "InvLife"], properties=["SaveIsPure"], init="MCSInit", nxt="MCSNext")
     r = ctx.rng
     events = []
 
@@ -121,6 +154,7 @@ def check(ctx):
                                 [{"kind": "test", "v": "valid"}], [{"kind": "func", "v": "valid"}, {"kind": "test", "v": "gross"}]]
     n_cases = ctx.pick(120, 1500)
     k = 0
+    sess = 0
     for (s1, s2) in itertools.cycle(pairs):
         if k >= n_cases:
             break
@@ -155,20 +189,31 @@ def check(ctx):
         opts = {"write_data": r.random() < 0.5, "write_axes": r.random() < 0.6, "axes": axes,
                 "include": {"given": inc_given, "items": (its[1] if k == 2 else r.choice(its)) if inc_given else []},
                 "exclude": {"given": exc_given, "items": (its[1] if k == 3 else r.choice(its)) if exc_given else []}}
-        add(run_save(tb, cfg, opts, rollup=(not inc_given and not exc_given and r.random() < 0.5)))
+        # one store object, a history of operations: saves before and after compute_aggregate (also twice), the same
+        # options again, other options (with filters) in between
+        plain = dict(opts, include={"given": False, "items": []}, exclude={"given": False, "items": []})
+        other = dict(opts, write_data=not opts["write_data"], write_axes=not opts["write_axes"])
+        pool = [("save", opts), ("save", plain), ("save", other), ("agg",), ("save", opts), ("agg",), ("save", plain)]
+        ops = [("save", opts)] if r.random() < 0.3 else [r.choice(pool) for _ in range(r.randint(2, 6))]
+        if not any(op[0] == "save" for op in ops):
+            ops.append(("save", plain))
+        sess += 1
+        for e in run_session(tb, cfg, ops):
+            e["sess"] = sess
+            add(e)
         k += 1
     # cf_safe_name on every string of length 1..3 (quick) / 1..4 over a class-covering alphabet
     alpha = ["a", "Z", "1", "_", ".", "-", " "]
     for ln in range(1, ctx.pick(3, 4) + 1):
         for tup in itertools.product(alpha, repeat=ln):
             raw = "".join(tup)
-            e = {"ev": "cfsafe", "raw": chars(raw), "out": [], "exc": ""}
+            e = {"ev": "cfsafe", "raw": chars(raw), "out": [], "exc": "", "sess": 0}
             try:
                 e["out"] = chars(cf_safe_name(raw))
             except Exception as ex:  # noqa: BLE001
                 e["exc"] = type(ex).__name__
             add(e)
-    rejects = core.validate_parallel(ctx, events, "Trace_Store", "store", session_key="none", chunk=1200)
+    rejects = core.validate_parallel(ctx, events, "Trace_Store", "store", session_key="sess", chunk=1200)
     by = {e["id"]: e for e in events}
     owned = [(by[i], cl) for i, cl in rejects]
     for e in [x for x in events if x["ev"] == "save"][:: max(1, n_cases // 5)][:5]:
@@ -187,6 +232,7 @@ def check(ctx):
         e["id"] = 1
         col = [c for c in e["frame"] if "".join(c["name"]).endswith("test")][0]
         col["vals"][0] = 4 if col["vals"][0] != 4 else 1
+        e["first"], e["rollup"] = True, {"asked": False, "found": False, "vals": []}
         bad, _ = tv.validate([e], "Trace_Store", "C19_self")
         if not any(cl == "c19_results" for _, cl in bad):
             raise tlc.MachineryError("binding self-test failed for Trace_Store")
@@ -195,6 +241,8 @@ def check(ctx):
     def sig(e, cl):
         if e["ev"] == "cfsafe":
             return "%s|cfsafe|first=%s" % (cl, "digit/underscore" if e["raw"][0] in "0123456789_" else "other")
+        if e["ev"] == "agg":
+            return "%s|agg|exc=%s" % (cl, e["exc"])
         o = e["opts"]
         ids = sorted(e["table"]["data"])
         coll = {"a.b", "a_b"} <= set(ids)
